@@ -1,9 +1,10 @@
 //! C16 correspondence: real `TensorChain` / `Chain` / `Block` / `TensorStateMachine` vs the Lean
 //! chain model (`drv_chain`), plus property oracles evaluated on the implementation alone.
 use std::collections::{BTreeMap, BTreeSet};
-use std::sync::{Arc, Barrier};
+use std::sync::{Arc, Barrier, Mutex};
 
 use graph_engine::GraphEngine;
+use nverif::sched::{run_threads, Step};
 use nverif::*;
 use serde_json::{json, Value};
 use tensor_chain::block::{Block, BlockHeader, Transaction};
@@ -551,6 +552,278 @@ fn gen_txs(r: &mut Rng, n: usize, val: &mut u64) -> Vec<Tx> {
         .collect()
 }
 
+// ------------------------------------------------------------------ concurrent commits: set-up, oracle, scheduler
+
+type CommitOut = Result<[u8; 32], String>;
+
+struct Conc {
+    store: TensorStore,
+    tc: Arc<TensorChain>,
+    wss: Vec<Arc<TransactionWorkspace>>,
+    plan: Vec<Vec<Tx>>,
+    genesis_plus: u64,
+    params: Value,
+}
+
+/// A chain (optionally with one sequentially committed block, "so that there is something to lose") and
+/// `nthreads` active workspaces with two puts each, not yet committed.
+fn conc_setup(nthreads: usize, auto_merge: bool, conflicting: bool, directional: bool, prefix: bool) -> Conc {
+    let store = TensorStore::new();
+    let mut cfg = ChainConfig::new("n");
+    cfg.auto_merge = AutoMergeConfig { enabled: auto_merge, orthogonal_threshold: 0.1, max_merge_batch: 10, merge_window_ms: u64::MAX / 4 };
+    let tc = Arc::new(TensorChain::with_config(store.clone(), cfg));
+    tc.initialize().unwrap();
+    if prefix {
+        let w0 = tc.begin().unwrap();
+        w0.add_operation(Tx::Put(50, 5000).real()).unwrap();
+        tc.commit(&w0).unwrap();
+    }
+    let genesis_plus = tc.height();
+    let mut wss = Vec::new();
+    let mut plan = Vec::new();
+    for t in 0..nthreads {
+        let w = tc.begin().unwrap();
+        let d = if directional { 1 + t as u64 } else { 0 };
+        w.set_before_embedding(&vec![0.0; DIM]);
+        w.compute_delta(&unit(d));
+        let k = if conflicting { 1 } else { 10 + t as u64 };
+        let ops = vec![Tx::Put(k, 1000 + t as u64), Tx::Put(20 + t as u64, 2000 + t as u64)];
+        for o in &ops {
+            w.add_operation(o.real()).unwrap();
+        }
+        plan.push(ops);
+        wss.push(w);
+    }
+    let params = json!({"threads": nthreads, "auto_merge": auto_merge, "conflicting_keys": conflicting, "directional_deltas": directional, "sequential_prefix_block": prefix});
+    Conc { store, tc, wss, plan, genesis_plus, params }
+}
+
+fn state_line(tc: &TensorChain, store: &TensorStore) -> String {
+    format!("h={} verify={} blocks={} data={}", tc.height(), vres(tc.verify()), show_heights(&blocks_present(store)), show_image(&data_image(store)))
+}
+
+/// The property oracle for a finished set of (possibly overlapping) commits, evaluated on the implementation
+/// alone: (violated classes, failing-input details, number of Ok results).
+fn conc_oracle(c: &Conc, results: &[CommitOut]) -> (Vec<(&'static str, &'static str)>, Value, u64) {
+    let oks = results.iter().filter(|x| x.is_ok()).count() as u64;
+    let height = c.tc.height();
+    let present = blocks_present(&c.store);
+    let ver = vres(c.tc.verify());
+    let mut chain_txs: Vec<Transaction> = Vec::new();
+    let mut replay: BTreeMap<u64, u64> = BTreeMap::new();
+    for h in 0..=height {
+        if let Some(b) = read_block(&c.store, h) {
+            for t in &b.transactions {
+                chain_txs.push(t.clone());
+                if let Transaction::Put { key, data } = t {
+                    let mut a = [0u8; 8];
+                    a.copy_from_slice(&data[..8]);
+                    replay.insert(key[1..].parse().unwrap(), u64::from_le_bytes(a));
+                }
+            }
+        }
+    }
+    let img = data_image(&c.store);
+    let mut input = c.params.clone();
+    let extra = json!({"stream": "concurrent",
+        "results": results.iter().map(|x| x.as_ref().map_or_else(|e| e.clone(), |_| "ok".into())).collect::<Vec<_>>(),
+        "ws_states": c.wss.iter().map(|w| format!("{:?}", w.state())).collect::<Vec<_>>(),
+        "height": height, "blocks_present": present, "verify": ver, "data": show_image(&img), "data_by_chain_replay": show_image(&replay)});
+    for (k, v) in extra.as_object().unwrap() {
+        input[k] = v.clone();
+    }
+    let mut vios: Vec<(&'static str, &'static str)> = Vec::new();
+    let want: Vec<u64> = (0..=height).collect();
+    if ver != "ok" || present != want {
+        vios.push(("tensor_chain.commit/concurrent_commit_lost", "after concurrent commits the chain does not verify / a block record below the in-memory height is missing (a losing commit restored a snapshot taken before the winner's append)"));
+    } else {
+        if height != c.genesis_plus + oks {
+            vios.push(("tensor_chain.commit/concurrent_height_mismatch", "height != previous height + number of commits that returned Ok"));
+        }
+        for (t, w) in c.wss.iter().enumerate() {
+            let cnt: Vec<usize> = c.plan[t].iter().map(|o| chain_txs.iter().filter(|x| **x == o.real()).count()).collect();
+            match w.state() {
+                TransactionState::Committed => {
+                    if cnt.iter().any(|x| *x != 1) {
+                        vios.push(("tensor_chain.commit/concurrent_committed_ops_not_exactly_once", "a committed workspace's operations are not in the chain exactly once"));
+                    }
+                }
+                _ => {
+                    if cnt.iter().any(|x| *x != 0) {
+                        vios.push(("tensor_chain.commit/concurrent_failed_ops_in_chain", "a failed workspace's operations are in the chain"));
+                    }
+                }
+            }
+        }
+        if img != replay {
+            vios.push(("tensor_chain.commit/concurrent_store_diverges_from_chain", "the store's data image is not the result of replaying the chain's blocks (writes of overlapping commits reach the store in another order than their blocks reach the chain, or a losing commit's restore removed or resurrected writes)"));
+        }
+    }
+    vios.dedup();
+    (vios, input, oks)
+}
+
+/// Units of one real `commit` as the deterministic scheduler can separate them (`A` = everything up to the first
+/// store call: mark_committing, conflict check, snapshot_bytes; `B` = one store.put/delete per operation;
+/// `C` = compute_state_root (store.scan "" + one store.get per key), then — without a further store call — block
+/// building, signing, taking `append_lock` and `Chain::append`'s checks; `D` = the store writes of `Chain::append`
+/// from `chain:block:h` to `chain:meta`, the in-memory height/tip update and the workspace bookkeeping).
+/// The model's atomic steps: A = prepare+snapshot, B = apply, C = root+build, D = append (+restore).
+const UA: u8 = 0;
+const UB: u8 = 1;
+const UC: u8 = 2;
+const UD: u8 = 3;
+
+fn park_phase(cur: u8, site: &str, key: &str) -> u8 {
+    if site == "thread.start" {
+        UA
+    } else if site == "store.scan" && key.is_empty() && cur < UC {
+        UC
+    } else if site == "store.put" && key.starts_with("chain:block:") && cur == UC {
+        UD
+    } else if cur == UA {
+        UB
+    } else {
+        cur
+    }
+}
+
+fn commit_tasks(c: &Conc, results: &Arc<Mutex<Vec<Option<CommitOut>>>>) -> Vec<Box<dyn FnOnce() + Send + 'static>> {
+    c.wss
+        .iter()
+        .cloned()
+        .enumerate()
+        .map(|(i, w)| {
+            let tc = c.tc.clone();
+            let res = results.clone();
+            Box::new(move || {
+                let r = tc.commit(&w).map_err(|e| verr(&e));
+                res.lock().unwrap()[i] = Some(r);
+            }) as Box<dyn FnOnce() + Send + 'static>
+        })
+        .collect()
+}
+
+/// Run the commits of `c` as real threads, one store call at a time, following a script of (thread, unit):
+/// the named thread is granted while it is parked in a unit <= the named one.
+fn run_unit_script(c: &Conc, script: &[(usize, u8)]) -> (Vec<CommitOut>, Vec<Step>) {
+    let n = c.wss.len();
+    let results: Arc<Mutex<Vec<Option<CommitOut>>>> = Arc::new(Mutex::new(vec![None; n]));
+    let tasks = commit_tasks(c, &results);
+    let sc = script.to_vec();
+    let mut phase = vec![UA; n];
+    let mut idx = 0usize;
+    let trace = run_threads(tasks, move |_, parked| {
+        for (t, site, key) in parked {
+            phase[*t] = park_phase(phase[*t], site, key);
+        }
+        loop {
+            match sc.get(idx) {
+                None => return 0,
+                Some((t, u)) => {
+                    if let Some(pos) = parked.iter().position(|p| p.0 == *t) {
+                        if phase[*t] <= *u {
+                            return pos;
+                        }
+                    }
+                    idx += 1;
+                }
+            }
+        }
+    });
+    let out = results.lock().unwrap().iter().map(|x| x.clone().unwrap_or_else(|| Err("no result".into()))).collect();
+    (out, trace)
+}
+
+/// Canonical form of one thread's yield sequence: the store accesses per unit.
+fn thread_trace(trace: &[Step], t: usize) -> String {
+    let mut ph = UA;
+    let mut apply: Vec<String> = Vec::new();
+    let mut root = "none".to_string();
+    let mut first_block: Option<String> = None;
+    let mut last_key: Option<String> = None;
+    for s in trace.iter().filter(|s| s.thread == t) {
+        let np = park_phase(ph, s.site, &s.key);
+        match np {
+            UA => {}
+            UB => apply.push(format!("{}:{}", match s.site { "store.put" => "put", "store.delete" => "del", o => o }, s.key.trim_start_matches('d'))),
+            UC => {
+                if ph != UC {
+                    root = "scan".into();
+                } else if s.site != "store.get" {
+                    root = format!("scan+{}", s.site);
+                }
+            }
+            _ => {
+                if ph != UD {
+                    first_block = Some(s.key["chain:block:".len()..].to_string());
+                }
+                last_key = Some(s.key.clone());
+            }
+        }
+        ph = np;
+    }
+    let append = match (first_block, last_key) {
+        (Some(b), Some(l)) if l == "chain:meta" => format!("block:{b}..meta"),
+        (Some(b), l) => format!("block:{b}..{}", l.unwrap_or_default()),
+        _ => "none".into(),
+    };
+    format!("apply={} root={root} append={append}", show_list(apply, false))
+}
+
+/// The model's schedule (thread index per atomic model step) for a unit script.
+fn model_schedule(script: &[(usize, u8)]) -> String {
+    let mut out: Vec<String> = Vec::new();
+    for (t, u) in script {
+        let k = match *u {
+            UA | UC | UD => 2, // prepare+snapshot, root+build, append+restore
+            _ => 1,
+        };
+        for _ in 0..k {
+            out.push(t.to_string());
+        }
+    }
+    out.join(",")
+}
+
+/// Random 2-thread unit script that the real code can realise exactly: `append_lock` is taken inside unit C, so
+/// once a thread has run C the other thread's D cannot come before the holder's D (its C blocks on the lock).
+fn gen_unit_script(r: &mut Rng) -> Vec<(usize, u8)> {
+    let mut next = [UA, UA];
+    let mut holder: Option<usize> = None;
+    let mut out = Vec::new();
+    while next[0] <= UD || next[1] <= UD {
+        let t = r.below(2) as usize;
+        let t = if next[t] > UD { 1 - t } else { t };
+        let o = 1 - t;
+        let u = next[t];
+        if u == UD && holder == Some(o) {
+            continue; // blocked on the other thread's append_lock
+        }
+        if u == UC && holder.is_none() {
+            holder = Some(t);
+        }
+        if u == UD && holder == Some(t) {
+            holder = None;
+            out.push((t, u));
+            next[t] += 1;
+            if next[o] == UD {
+                // the other thread was waiting for the lock: its append (and restore) follow at once
+                out.push((o, UD));
+                next[o] += 1;
+            }
+            continue;
+        }
+        out.push((t, u));
+        next[t] += 1;
+    }
+    out
+}
+
+fn show_script(script: &[(usize, u8)]) -> String {
+    script.iter().map(|(t, u)| format!("{t}{}", ["A", "B", "C", "D"][*u as usize])).collect::<Vec<_>>().join(" ")
+}
+
 fn main() {
     let args = parse_args();
     let mut rep = Report::new(
@@ -565,6 +838,7 @@ fn main() {
         "append.ok", "append.err height", "append.err prev_hash", "append.err tx_root", "append.err unsigned", "append.err bad_sig",
         "verify.ok", "verify.err height", "verify.err prev_hash", "verify.err tx_root", "verify.err timestamp", "verify.err bad_sig",
         "verify.err not_found", "verify.err empty_chain", "tamper.genesis_transactions.detected", "concurrent.directed.reproduced",
+        "sched.witness.commit_lost.reproduced", "sched.witness.store_diverges.reproduced",
     ]
     .iter()
     .map(|s| s.to_string())
@@ -1033,6 +1307,123 @@ fn main() {
         }
     }
 
+    // ---------------- stream F: real commit threads under the deterministic scheduler (tensor_store::verif::yield_point)
+    // F0: one commit alone: its yield sequence against the model's atomic step list
+    {
+        let c = conc_setup(0, false, false, false, false);
+        let w = c.tc.begin().unwrap();
+        let ops = [Tx::Put(1, 1), Tx::Del(7), Tx::Put(2, 5)];
+        for o in &ops {
+            w.add_operation(o.real()).unwrap();
+        }
+        let c = Conc { wss: vec![w], plan: vec![ops.to_vec()], ..c };
+        m.ask("init 1000 0 10 0");
+        m.ask("begin");
+        for o in &ops {
+            match o {
+                Tx::Put(k, v) => m.ask(&format!("put 0 {k} {v}")),
+                Tx::Del(k) => m.ask(&format!("del 0 {k}")),
+            };
+        }
+        let want = m.ask("ctrace 0");
+        let (results, trace) = run_unit_script(&c, &[]);
+        rep.compare("sched.solo_yield_sequence", || json!({"ops": show_txs(&ops), "trace": trace.iter().map(|s| format!("{} {}", s.site, s.key)).collect::<Vec<_>>()}), &thread_trace(&trace, 0), &want);
+        let mres = m.ask("commit 0 5");
+        rep.compare("sched.solo_result", || json!({"ops": show_txs(&ops)}), if results[0].is_ok() { "ok" } else { "err" }, mres.split(' ').next().unwrap_or(""));
+        rep.compare("sched.solo_state", || json!({"ops": show_txs(&ops)}), &state_line(&c.tc, &c.store), &m.ask("state"));
+        rep.case("sched.solo", Some("solo"));
+        rep.sample(json!({"stream": "sched.solo", "ops": show_txs(&ops), "yield_sequence": trace.iter().map(|s| format!("{} {}", s.site, s.key)).collect::<Vec<_>>(), "canonical": thread_trace(&trace, 0)}));
+    }
+    // F1: unit scripts. The first two are the Lean witnesses (`concurrent_commit_witness`: A A B B C C D D with the
+    // loser restoring; `concurrent_commit_order_witness`: thread 0 up to apply, thread 1 completely, thread 0's rest);
+    // the rest are seeded random scripts. Real results and final state are compared with the model run under the
+    // same schedule; the oracle is evaluated on the implementation.
+    let mut r = root.fork("sched.units");
+    for case in 0..(2 + 60 * scale) {
+        let (script, conflicting, prefix): (Vec<(usize, u8)>, bool, bool) = match case {
+            0 => (vec![(0, UA), (1, UA), (0, UB), (1, UB), (0, UC), (1, UC), (0, UD), (1, UD)], false, true),
+            1 => (vec![(0, UA), (0, UB), (1, UA), (1, UB), (1, UC), (1, UD), (0, UC), (0, UD)], true, true),
+            _ => (gen_unit_script(&mut r), r.chance(1, 2), r.chance(1, 2)),
+        };
+        let c = conc_setup(2, false, conflicting, false, prefix);
+        // model set-up
+        m.ask("init 1000 0 10 0");
+        let base = if prefix {
+            m.ask("begin");
+            m.ask("put 0 50 5000");
+            m.ask("commit 0 1");
+            1
+        } else {
+            0
+        };
+        let mut want_traces = Vec::new();
+        for (t, ops) in c.plan.iter().enumerate() {
+            m.ask("begin");
+            for o in ops {
+                if let Tx::Put(k, v) = o {
+                    m.ask(&format!("put {} {k} {v}", base + t));
+                }
+            }
+            want_traces.push(m.ask(&format!("ctrace {}", base + t)));
+        }
+        let (results, trace) = run_unit_script(&c, &script);
+        let msched = model_schedule(&script);
+        let mres = m.ask(&format!("sched {},{} 5 {msched}", base, base + 1));
+        let mres: Vec<String> = mres.split(" | ").map(|x| if x.starts_with("ok") { "ok".to_string() } else { x.replace("append_", "") }).collect();
+        let ires: Vec<String> = results.iter().map(|x| x.as_ref().map_or_else(|e| e.clone(), |_| "ok".into())).collect();
+        let imp = format!("{} ; {}", ires.join(" | "), state_line(&c.tc, &c.store));
+        let model = format!("{} ; {}", mres.join(" | "), m.ask("state"));
+        let desc = json!({"script": show_script(&script), "model_schedule": msched, "conflicting_keys": conflicting, "sequential_prefix_block": prefix});
+        rep.compare("sched.units", || desc.clone(), &imp, &model);
+        // per-thread yield sequence up to the state root against the model's step list (the append part depends on
+        // the schedule: a thread that loses never writes)
+        for t in 0..2 {
+            let got = thread_trace(&trace, t);
+            rep.compare("sched.units_yield_sequence", || desc.clone(), got.split(" append=").next().unwrap_or(""), want_traces[t].split(" append=").next().unwrap_or(""));
+        }
+        let (vios, mut input, oks) = conc_oracle(&c, &results);
+        input["scheduler"] = json!("deterministic (tensor_store::verif::yield_point), unit script");
+        input["script"] = json!(show_script(&script));
+        input["blocked_on_lock_steps"] = json!(trace.iter().filter(|s| !s.blocked.is_empty()).count());
+        for v in &vios {
+            violation(&mut rep, v.0, v.1, input.clone());
+        }
+        rep.hit(&format!("sched.units.oks{oks}.{}", if vios.is_empty() { "clean" } else { vios[0].0.rsplit('/').next().unwrap_or("") }));
+        if case == 0 {
+            rep.hit(if vios.iter().any(|v| v.0 == "tensor_chain.commit/concurrent_commit_lost") { "sched.witness.commit_lost.reproduced" } else { "sched.witness.commit_lost.NOT_reproduced" });
+        }
+        if case == 1 {
+            rep.hit(if vios.iter().any(|v| v.0 == "tensor_chain.commit/concurrent_store_diverges_from_chain") { "sched.witness.store_diverges.reproduced" } else { "sched.witness.store_diverges.NOT_reproduced" });
+        }
+        let ukey = format!("{} {conflicting} {prefix}", show_script(&script));
+        rep.case("sched.units", if oks > 0 { Some(&ukey) } else { None });
+        if case < 2 {
+            rep.sample(input);
+        }
+    }
+    // F2: seeded random schedules at single-store-call granularity, 2-3 threads (finer than the model's atomic
+    // steps: oracle only, same classes as above)
+    let mut r = root.fork("sched.raw");
+    for case in 0..30 * scale {
+        let nthreads = 2 + r.below(2) as usize;
+        let conflicting = r.chance(1, 2);
+        let c = conc_setup(nthreads, r.chance(1, 3), conflicting, r.chance(1, 3), true);
+        let results: Arc<Mutex<Vec<Option<CommitOut>>>> = Arc::new(Mutex::new(vec![None; nthreads]));
+        let tasks = commit_tasks(&c, &results);
+        let mut rr = r.fork(&format!("case{case}"));
+        let trace = run_threads(tasks, move |_, parked| rr.below(parked.len() as u64) as usize);
+        let results: Vec<CommitOut> = results.lock().unwrap().iter().map(|x| x.clone().unwrap_or_else(|| Err("no result".into()))).collect();
+        let (vios, mut input, oks) = conc_oracle(&c, &results);
+        input["scheduler"] = json!("deterministic (tensor_store::verif::yield_point), PRNG per store call");
+        input["schedule_threads"] = json!(trace.iter().map(|s| s.thread.to_string()).collect::<Vec<_>>().join(""));
+        for v in &vios {
+            violation(&mut rep, v.0, v.1, input.clone());
+        }
+        rep.hit(&format!("sched.raw.threads{nthreads}.oks{oks}.{}", if vios.is_empty() { "clean" } else { vios[0].0.rsplit('/').next().unwrap_or("") }));
+        let rkey = format!("{case} {}", input["schedule_threads"]);
+        rep.case("sched.raw", if oks > 0 { Some(&rkey) } else { None });
+    }
+
     // ---------------- stream E: 2-4 real threads committing concurrently (oracle only)
     // The first DIRECTED_MAX indices are one directed scenario (2 threads, plain workspaces, disjoint keys) retried
     // until the lost-commit interleaving has been produced once (bounded; the OS schedules the threads), then skipped.
@@ -1051,37 +1442,14 @@ fn main() {
         if directed {
             directed_attempts += 1;
         }
-        let store = TensorStore::new();
-        let mut cfg = ChainConfig::new("n");
-        cfg.auto_merge = AutoMergeConfig { enabled: auto_merge, orthogonal_threshold: 0.1, max_merge_batch: 10, merge_window_ms: u64::MAX / 4 };
-        let tc = Arc::new(TensorChain::with_config(store.clone(), cfg));
-        tc.initialize().unwrap();
-        // a sequential prefix so that there is something to lose
-        let w0 = tc.begin().unwrap();
-        w0.add_operation(Tx::Put(50, 5000).real()).unwrap();
-        tc.commit(&w0).unwrap();
-        let genesis_plus = tc.height();
-        let mut wss = Vec::new();
-        let mut plan = Vec::new();
-        for t in 0..nthreads {
-            let w = tc.begin().unwrap();
-            let d = if directional { 1 + t as u64 } else { 0 };
-            w.set_before_embedding(&vec![0.0; DIM]);
-            w.compute_delta(&unit(d));
-            let k = if conflicting { 1 } else { 10 + t as u64 };
-            let ops = vec![Tx::Put(k, 1000 + t as u64), Tx::Put(20 + t as u64, 2000 + t as u64)];
-            for o in &ops {
-                w.add_operation(o.real()).unwrap();
-            }
-            plan.push(ops);
-            wss.push(w);
-        }
+        let c = conc_setup(nthreads, auto_merge, conflicting, directional, true);
         let barrier = Arc::new(Barrier::new(nthreads));
-        let handles: Vec<_> = wss
+        let handles: Vec<_> = c
+            .wss
             .iter()
             .cloned()
             .map(|w| {
-                let tc = tc.clone();
+                let tc = c.tc.clone();
                 let b = barrier.clone();
                 std::thread::spawn(move || {
                     b.wait();
@@ -1089,71 +1457,28 @@ fn main() {
                 })
             })
             .collect();
-        let results: Vec<Result<[u8; 32], String>> = handles.into_iter().map(|h| h.join().unwrap_or_else(|_| Err("panic".into()))).collect();
-        let oks = results.iter().filter(|x| x.is_ok()).count() as u64;
-        let height = tc.height();
-        let present = blocks_present(&store);
-        let ver = vres(tc.verify());
-        let mut chain_txs: Vec<Transaction> = Vec::new();
-        let mut replay: BTreeMap<u64, u64> = BTreeMap::new();
-        for h in 0..=height {
-            if let Some(b) = read_block(&store, h) {
-                for t in &b.transactions {
-                    chain_txs.push(t.clone());
-                    if let Transaction::Put { key, data } = t {
-                        let mut a = [0u8; 8];
-                        a.copy_from_slice(&data[..8]);
-                        replay.insert(key[1..].parse().unwrap(), u64::from_le_bytes(a));
-                    }
-                }
-            }
-        }
-        let img = data_image(&store);
-        let input = json!({"stream": "concurrent", "threads": nthreads, "auto_merge": auto_merge, "conflicting_keys": conflicting, "directional_deltas": directional,
-            "results": results.iter().map(|x| x.as_ref().map_or_else(|e| e.clone(), |_| "ok".into())).collect::<Vec<_>>(),
-            "ws_states": wss.iter().map(|w| format!("{:?}", w.state())).collect::<Vec<_>>(),
-            "height": height, "blocks_present": present, "verify": ver, "data": show_image(&img), "data_by_chain_replay": show_image(&replay)});
-        if !directed {
-            rep.hit(&format!("concurrent.threads{nthreads}.oks{oks}"));
-        }
-        let want: Vec<u64> = (0..=height).collect();
+        let results: Vec<CommitOut> = handles.into_iter().map(|h| h.join().unwrap_or_else(|_| Err("panic".into()))).collect();
+        let (vios, mut input, oks) = conc_oracle(&c, &results);
+        input["scheduler"] = json!("free-running OS threads");
+        let lost = vios.iter().any(|v| v.0 == "tensor_chain.commit/concurrent_commit_lost");
         if directed {
             // only the attempt that shows the race is counted as a case (attempts needed vary with the OS scheduler)
-            if ver != "ok" || present != want {
+            if lost {
                 lost_seen = true;
                 rep.hit("concurrent.directed.reproduced");
-                violation(&mut rep, "tensor_chain.commit/concurrent_commit_lost", "after concurrent commits the chain does not verify / a block record below the in-memory height is missing (a losing commit restored a snapshot taken before the winner's append)", input.clone());
+                for v in &vios {
+                    violation(&mut rep, v.0, v.1, input.clone());
+                }
                 rep.case("concurrent", Some("directed 2 threads"));
-                rep.observe(json!({"note": "directed concurrent scenario: attempts until the lost-commit interleaving appeared", "attempts": directed_attempts, "bound": DIRECTED_MAX}));
+                rep.observe(json!({"note": "free-running directed concurrent scenario: attempts until the lost-commit interleaving appeared", "attempts": directed_attempts, "bound": DIRECTED_MAX}));
             } else if idx + 1 == DIRECTED_MAX {
-                rep.observe(json!({"note": "directed concurrent scenario: lost-commit interleaving not produced within the bound", "attempts": directed_attempts}));
+                rep.observe(json!({"note": "free-running directed concurrent scenario: lost-commit interleaving not produced within the bound", "attempts": directed_attempts}));
             }
             continue;
         }
-        if ver != "ok" || present != want {
-            violation(&mut rep, "tensor_chain.commit/concurrent_commit_lost", "after concurrent commits the chain does not verify / a block record below the in-memory height is missing (a losing commit restored a snapshot taken before the winner's append)", input.clone());
-        } else {
-            if height != genesis_plus + oks {
-                violation(&mut rep, "tensor_chain.commit/concurrent_height_mismatch", "height != previous height + number of commits that returned Ok", input.clone());
-            }
-            for (t, w) in wss.iter().enumerate() {
-                let cnt: Vec<usize> = plan[t].iter().map(|o| chain_txs.iter().filter(|c| **c == o.real()).count()).collect();
-                match w.state() {
-                    TransactionState::Committed => {
-                        if cnt.iter().any(|c| *c != 1) {
-                            violation(&mut rep, "tensor_chain.commit/concurrent_committed_ops_not_exactly_once", "a committed workspace's operations are not in the chain exactly once", input.clone());
-                        }
-                    }
-                    _ => {
-                        if cnt.iter().any(|c| *c != 0) {
-                            violation(&mut rep, "tensor_chain.commit/concurrent_failed_ops_in_chain", "a failed workspace's operations are in the chain", input.clone());
-                        }
-                    }
-                }
-            }
-            if img != replay {
-                violation(&mut rep, "tensor_chain.commit/concurrent_store_diverges_from_chain", "the store's data image is not the result of replaying the chain's blocks (a losing commit's restore removed or resurrected writes)", input.clone());
-            }
+        rep.hit(&format!("concurrent.threads{nthreads}.oks{oks}"));
+        for v in &vios {
+            violation(&mut rep, v.0, v.1, input.clone());
         }
         let ckey = format!("{case} {nthreads} {auto_merge} {conflicting} {directional} {:?}", results.iter().map(Result::is_ok).collect::<Vec<_>>());
         rep.case("concurrent", if oks > 0 { Some(&ckey) } else { None });
